@@ -13,7 +13,8 @@ CFG = dict(
          "entry count, BlTxID >= id, empty key), Sync, AllowCommitUpto, DiscardPrecommittedTxsSince, "
          "SetExternalCommitAllowance, close/reopen, index flush/compaction in between; plus fixed directed scripts "
          "(Discard+Precommit+Reopen, cLogBuf full inside performPrecommit also followed by a replicated tx, sync() stopping "
-         "midway then reopen, waiter of a discarded tx, MaxActiveTransactions in synced mode) and a concurrent phase (3..7 goroutines committing, a monitor goroutine re-reading, the order of the "
+         "midway then reopen, waiter of a discarded tx, MaxActiveTransactions in synced mode; falsifier-only: stale commit-log "
+         "tail with small chunk files, with and without preallocation) and a concurrent phase (3..7 goroutines committing, a monitor goroutine re-reading, the order of the "
          "returned ids and of the value offsets fed to the model as the interleaving). After EVERY step the whole "
          "committed history is re-read (ReadTx with integrity check, ReadValue, CommittedAlh, LastPrecommittedTxID) and "
          "compared with the model's (result class, ids, Alh, header fields, entries, value offsets, values). "
@@ -31,17 +32,19 @@ CFG = dict(
         "record (torn records, the middle of a record) never parse as a transaction whose Alh verifies and continues the "
         "chain; OpenWith's backlog scan finds the write that STARTS at the scan position (b814f8c: the embedded-values prefix "
         "is skipped; a prefix of 64 KiB or more wraps its 2-byte length and ends the scan)",
-        "appendable layer (property C17), as fixed by 09014a8: a rewind (SetOffset) of the tx log drops everything at or "
-        "beyond the offset (file truncated, chunk files behind removed) and the commit log is the logical entry list "
-        "(rewound to committedTxID by every commit loop); for PREALLOCATED files, which are never truncated, only what is "
-        "still in the write buffer is dropped and only the explicit flushes (sync(), Close) are modelled, not those caused by "
-        "buffer overflow or chunk rotation (so preallocation is generated without external commit allowance only, where no "
-        "rewind over buffered bytes occurs); the physical leftovers of the AHT's own logs after ResetSize are not modelled "
-        "(under external allowance no reopen after a Discard followed by a new precommit, except in the directed scripts); a "
-        "replicated tx with BlTxID = 0 is not sent while cLogBuf is full",
+        "appendable layer (property C17), as fixed by 09014a8 / 8728288: a rewind (SetOffset) of the tx log -- by "
+        "performPrecommit and by DiscardPrecommittedTxsSince, which cuts it at the end of the last kept transaction -- drops "
+        "everything at or beyond the offset (file truncated, chunk files behind removed); the commit log is the logical entry "
+        "list, rewound to committedTxID by every commit loop incl. the ones that do not complete, so it never holds entries "
+        "beyond the committed id; for PREALLOCATED files, which are never truncated, only what is still in the write buffer is "
+        "dropped and only the explicit flushes (sync(), Close) are modelled, not those caused by buffer overflow or chunk "
+        "rotation, nor the removal of whole chunk files behind a cut. EXCLUDED from generation because of that: preallocation "
+        "together with external commit allowance; under preallocation a reopen after a Discard that removed something. The "
+        "physical leftovers of the AHT's own logs are not modelled (OpenWith rebuilds the tree beyond the committed "
+        "transactions, so they do not matter); a replicated tx with BlTxID = 0 is not sent while cLogBuf is full",
         "the AHT is the list of appended Alh values with RootAt(n) = mth of the first n (its hashing/addressing is property "
         "C08); executable SHA-256 of coq/Merkle/Sha256.v (Uint63 under vm_compute) only to run the model; theorems are "
-        "about an abstract hash H, no collision assumption is needed by any C02 theorem",
+        "about an abstract hash H; C02_blroot concludes `... \\/ Collision H` (explicit reduction), no other theorem mentions collisions",
         "inputs of the model steps taken as given: precondition outcome (index not modelled), the clock; value offsets are compared only for "
         "MaxIOConcurrency = 1; PrevAlh/Eh/BlRoot/value digests are compared through the Alh that commits to them; "
         "NOT modelled: indexing, value-log truncation (C14), crash recovery (C03), ExportTx/TxReader readers (ReadTx incl. its "
@@ -52,12 +55,12 @@ CFG = dict(
     assumptions=[
         "transaction ids stay below 2^64 and log sizes below 2^63 (no integer wrap-around in offsets)",
         "preallocated commit log (PreallocFiles): entries appended by a commit loop that stops midway and flushed by chunk "
-        "rotation stay in the never-truncated file after the next rewind and are counted by OpenWith's search for the last "
+        "rotation stay in the never-truncated file after the rewinds and are counted by OpenWith's search for the last "
         "non-zero entry; the model's logical commit log does not contain this: the falsifier-only scenario "
         "staleClogTail(prealloc=true) (harness/c02/c02.go) runs the real-store execution (synced, external allowance, FileSize "
-        "256, preallocation) after which the committed id goes 4 -> 5 and tx 5's PrevAlh is not the Alh of tx 4: reported on "
-        "every run as a KNOWN-FINDING (harness level). The same history without preallocation was fixed by 09014a8 and "
-        "stays in the check as a regression scenario",
+        "256, preallocation) after which store.Open fails with 'corrupted transaction log: size is too small' (before 8728288: "
+        "committed id 4 -> 5 and a broken PrevAlh link): reported on every run as a KNOWN-FINDING (harness level). The same "
+        "history without preallocation was fixed by 09014a8 and stays in the check as a regression scenario",
     ],
 )
 
